@@ -14,8 +14,9 @@ IMPORTS = "From Ford Require Import Base.Str Gen.LinkTypes Out.Links Corr.C11."
 CASE_T = "case"
 THEOREMS = [
     "C11_kind_tables_component", "C11_kind_tables_item", "C11_kind_tables_complete",
-    "C11_lookup_order", "C11_lookup_first_match", "C11_absent_plain", "C11_case_insensitive",
-    "C11_child_kind_error", "C11_child_sound", "C11_lookup_order_refuted", "C11_child_kind_refuted",
+    "C11_kind_tables_scope", "C11_kind_tables_scope_complete",
+    "C11_lookup_order", "C11_lookup_first_match", "C11_absent_plain", "C11_case_insensitive", "C11_no_abort",
+    "C11_child_kind_error", "C11_child_sound",
 ]
 
 COMP_KINDS = ["procedure", "proc", "subroutine", "function", "interface", "absinterface", "block", "type", "file",
@@ -450,14 +451,6 @@ def end_to_end(chk, rng, nproj):
                 tgt = record_target(records[kk])
                 exp = ("plain",) if tgt is None else ("link", tgt)
                 bad = check_occurrence(doc, page, inner, exp)
-                if bad and marks[kk][0] == "@summary":
-                    chk.disagreements += 1
-                    if chk.known("summary-links-relative-to-cwd", True):
-                        continue
-                if bad and "does not exist" in bad and tgt.startswith("namelist/"):
-                    chk.disagreements += 1
-                    if chk.known("module-namelist-no-page", True):
-                        continue
                 if bad:
                     probs.append(f"{page}: marker {kk} {ref_text(marks[kk][1])} ({marks[kk][0]}): {bad}")
             missing = [kk for kk in marks if kk not in skip and kk not in records]
@@ -485,36 +478,22 @@ def evaluate(chk, defs, cases, infos, what, extra):
     if res is None:
         return
     chk.traces += len(cases)
-    regions = chk.extra.setdefault("region_counts", {"kind_skips_context": 0, "error": 0})
     for idx, code in sorted(res.items()):
-        region = code >> 2
-        if code & 2 and region & 1:
-            regions["kind_skips_context"] += 1
-        if code & 2 and region & 2:
-            regions["error"] += 1
         if not code & 3:
             continue
         payload = dict(extra)
         payload.update({"what": what, "case": infos[idx], "code": code,
-                        "meaning": "bit0 model!=impl, bit1 impl violates the Spec, region bits: 1 kind word skips "
-                                   "the context, 2 exception, 4 attribute not chained by children"})
-        if code & 1:
-            chk.disagreements += 1
-            found = bool(code & 2 and not region & 3)
-            chk.violation("failing-input" if found else "broken-correspondence", payload, found)
+                        "meaning": "bit0 model!=impl, bit1 impl violates the Spec (bit 4: diagnostic, a candidate "
+                                   "has an attribute that FortranBase.children does not chain)"})
+        chk.disagreements += 1
+        if code & 2:
+            chk.violation("failing-input", payload, True)
         else:
-            chk.disagreements += 1
-            ok = bool(region & 3)
-            if region & 1:
-                ok = chk.known("qualified-ref-skips-context", True) and ok
-            if region & 2:
-                ok = chk.known("link-error-aborts-run", True) and ok
-            if not ok:
-                chk.violation("failing-input", payload, True)
+            chk.violation("broken-correspondence", payload, False)
 
 
-# ----------------------------------------------------------------------------- known findings
-def replay_known(chk):
+def regressions(chk):
+    """the witnesses of the four repaired defects: a defect that returns is a failing input"""
     files = {"src/a.f90": "subroutine reset()\n  !! top\nend subroutine\n",
              "src/b.f90": "module m\n  type :: shape\n    integer :: n\n  end type\n  interface gen\n"
                           "    module procedure reset\n  end interface\ncontains\n  subroutine reset()\n    !! mine\n"
@@ -524,23 +503,42 @@ def replay_known(chk):
         ctx = next(i for i, e in enumerate(ab.ents) if e["name"] == "reset" and e["parent"] is not None
                    and e["cls"] == "FortranSubroutine")
         a = L.convert(md, base, ab, ctx, "[[reset]]")
-        b = L.convert(md, base, ab, ctx, "[[reset(proc)]]")
-        chk.known("qualified-ref-skips-context", a[0] == "link" and b[0] == "link" and a[2] != b[2])
-        errs = [L.convert(md, base, ab, None, t, path=base / "page")[0]
-                for t in ["[[m:reset(bound)]]", "[[shape:shape(constructor)]]", "[[gen:reset(modproc)]]"]]
-        chk.known("link-error-aborts-run", "err" in errs)
+        for t in ["[[reset(proc)]]", "[[reset(subroutine)]]", "[[RESET(Procedure)]]", "[[reset(function)]]"]:
+            b = L.convert(md, base, ab, ctx, t)
+            if not (a[0] == "link" and b[0] == "link" and a[2] == b[2] and a[1] == [ctx]):
+                chk.violation("failing-input", {"what": "regression: a kind word on the component makes the lookup "
+                                                        "skip the context", "ref": t, "plain": list(a), "qualified": list(b),
+                                                "files": files}, True)
+        for t in ["[[m:reset(bound)]]", "[[shape:shape(constructor)]]", "[[gen:reset(modproc)]]", "[[m(foo)]]",
+                  "[[m:reset(foo)]]"]:
+            x = L.convert(md, base, ab, None, t, path=base / "page")
+            if x[0] not in ("plain", "link"):
+                chk.violation("failing-input", {"what": "regression: a reference with an impossible or unknown kind "
+                                                        "word raises instead of a warning", "ref": t, "impl": list(x[:3]),
+                                                "files": files}, True)
     finally:
         w.__exit__()
+    with F.Work({"src/a.f90": "module m\n  !! See [[m:reset(bound)]] here.\ncontains\n  subroutine reset()\n"
+                              "  end subroutine\nend module\n"}) as w1:
+        data, log, err = F.full_run_inprocess(w1.root, {})
+        if err or not (w1.root / "doc" / "module" / "m.html").exists():
+            chk.violation("failing-input", {"what": "regression: a reference with an impossible item kind aborts the run",
+                                            "error": err}, True)
     with F.Work({"src/a.f90": "module ma\n  !! A module.\nend module\n"}) as w2:
-        data, log, err = F.full_run_inprocess(w2.root, {"summary": "SUMM [[ma]] MMUS"})
+        data, log, err = F.full_run_inprocess(w2.root, {"summary": "SUMM [[ma]] MMUS", "author": "me",
+                                                        "author_description": "AUTH [[ma]] HTUA"})
         t = (w2.root / "doc" / "index.html").read_text() if not err else ""
-        hrefs = re.findall(r'SUMM <a href="([^"]*)"', t)
-        chk.known("summary-links-relative-to-cwd", bool(hrefs) and not all((w2.root / "doc" / h).exists() for h in hrefs))
+        hrefs = re.findall(r'SUMM <a href="([^"]*)"', t) + re.findall(r'AUTH <a href="([^"]*)"', t)
+        if len(hrefs) < 2 or not all((w2.root / "doc" / h).exists() for h in hrefs):
+            chk.violation("failing-input", {"what": "regression: references in the project summary / author_description "
+                                                    "do not resolve from index.html", "hrefs": hrefs, "error": err}, True)
     with F.Work({"src/a.f90": "module ma\n  !! See [[nl]] here.\n  integer :: v\n  namelist /nl/ v\nend module\n"}) as w3:
         data, log, err = F.full_run_inprocess(w3.root, {})
         t = (w3.root / "doc" / "module" / "ma.html").read_text() if not err else ""
         m = re.search(r'See <a href="([^"]*)"', t)
-        chk.known("module-namelist-no-page", bool(m) and not (w3.root / "doc" / "module" / m.group(1)).exists())
+        if not m or not (w3.root / "doc" / "module" / m.group(1)).exists():
+            chk.violation("failing-input", {"what": "regression: [[nl]] to a module-level namelist is a dead link",
+                                            "href": m and m.group(1), "error": err}, True)
 
 
 # ----------------------------------------------------------------------------- the check
@@ -604,7 +602,7 @@ def run(chk):
     for i in range(0, len(projects), 8):
         direct_batch(chk, rng, projects[i:i + 8], "one reference converted by the real markdown pipeline in a context")
     end_to_end(chk, rng, 4 if quick else 40)
-    replay_known(chk)
+    regressions(chk)
     if not quick:
         chk.coqchk(["Ford.Props.C11"])
 
